@@ -176,6 +176,23 @@ ExactArnoldiOK(A, v, kd, b) ==
              /\ MEq(MMul(A, xa.q[j]), LinComb(xa.h[j], xa.q, KMin2(j + 1, k)))
              /\ xa.h[j][j + 1].n[2] = 0
              /\ IF j < k THEN xa.h[j][j + 1].n[1] > 0 ELSE xa.h[j][j + 1].n[1] = 0
+\* Scale equivariance.  The Arnoldi / Lanczos process is homogeneous of degree (0, 1) in the operator: for every
+\* c > 0 the process of c*A from the same start vector has the same orthonormal basis, the Hessenberg (tridiagonal)
+\* matrix c*H, and breaks down at the same step, so KDim, the step / column counts for every max_iters and - the
+\* stopping tests being relative to ||A q_1|| - the outcome of every numeric test for every tolerance are those
+\* of A.  (q_1 does not depend on A; inductively w = (cA) q_j - sum (c h_ij) q_i = c w_A, ||w|| = c ||w_A||, same
+\* q_(j+1).)  The argument holds for every positive c, in particular dyadic c = 2^-30, 2^20 that stay exact in
+\* floating point; it is CHECKED here as an invariant on the exact catalog cases with small dyadic c (32-bit
+\* integers), MC_Krylov!ScaleSet.
+ScaleEquivariantAt(A, v, c) ==
+    LET xa == ExactArnoldi(A, v)
+        xs == ExactArnoldi(MScale(c, A), v)
+    IN /\ xs.rational = xa.rational
+       /\ Len(xs.q) = Len(xa.q) /\ Len(xs.h) = Len(xa.h)
+       /\ \A j \in 1..Len(xa.q): MEq(xs.q[j], xa.q[j])
+       /\ \A j \in 1..Len(xa.h):
+             /\ Len(xs.h[j]) = Len(xa.h[j])
+             /\ \A i \in 1..Len(xa.h[j]): QEq(xs.h[j][i], QMul(c, xa.h[j][i]))
 \* export: columns of Q as [e (numerators), d], columns of H as sequences of [n, d]
 ExactExport(A, v) ==
     LET xa == ExactArnoldi(A, v)
